@@ -859,33 +859,41 @@ class Node:
         If `with_clones` is true, all nodes that reference the same data
         instance are removed as well.
         """
+        doomed = self.get_clones(add_self=True) if with_clones else [self]
+
         if keep_children:
-            # The children become siblings of this node: check for conflicts
-            # first, because we must not fail after some were moved
-            for n in self.get_clones(add_self=True) if with_clones else (self,):
-                sibling_ids = {
-                    c._data_id for c in n._parent.children if c is not n
-                }
-                for c in n.children:
-                    if c._data_id in sibling_ids:
-                        raise UniqueConstraintError(
-                            f"Node.data already exists in parent: {c}"
-                        )
+            # The children become siblings of the removed nodes: check the
+            # resulting child lists for conflicts first, because we must not
+            # fail after some children were moved.
+            def _remaining(nodes):
+                for c in nodes:
+                    if any(c is d for d in doomed):
+                        yield from _remaining(c.children)
+                    else:
+                        yield c
 
-        if with_clones:
-            for c in self.get_clones():  # Excluding self
-                if c._tree is None:
-                    continue  # already removed as descendant of another clone
-                c.remove(keep_children=keep_children, with_clones=False)
-            if self._tree is None:
-                return  # already removed as descendant of another clone
-            assert not self.is_clone()
+            for n in doomed:
+                if any(n._parent is d for d in doomed):
+                    continue  # nested clone: checked with the outermost one
+                ids = [c._data_id for c in _remaining(n._parent.children)]
+                if len(set(ids)) != len(ids):
+                    raise UniqueConstraintError(
+                        f"Node.data already exists in parent: {n._parent}"
+                    )
 
+        for n in doomed:
+            if n._tree is None:
+                continue  # already removed as descendant of another clone
+            n._remove(keep_children=keep_children)
+        return
+
+    def _remove(self, *, keep_children: bool) -> None:
+        """Remove this single node (see :meth:`remove`)."""
         if keep_children:
             # Un-nest the children in place, i.e. at the position of this node.
-            # (Conflicts were checked above. We cannot use `move_to()` here: a
-            # child that holds the same data as this node does not conflict,
-            # because this node is removed.)
+            # (Conflicts were checked by the caller. We cannot use `move_to()`
+            # here: a child that holds the same data as this node does not
+            # conflict, because this node is removed.)
             children = self._children
             if children:
                 parent = self._parent
